@@ -26,7 +26,7 @@ class Sub:
     """One generated check of a property (a strategy or an enumeration + an oracle)."""
 
     def __init__(self, name, check, strategy=None, enumerate=None, quick=200, thorough=2000,
-                 nontrivial=None, labels=None, doc=""):
+                 nontrivial=None, labels=None, doc="", per_shard=20):
         self.name = name
         self.check = check              # check(case) -> None | dict(nontrivial=bool, labels=[...], excluded=int)
         self.strategy = strategy        # strategy(tier) -> hypothesis SearchStrategy of JSON-able cases
@@ -36,6 +36,7 @@ class Sub:
         self.nontrivial = nontrivial or (lambda case: True)
         self.labels = labels or (lambda case: [])
         self.doc = doc
+        self.per_shard = per_shard      # minimum number of generated cases per shard process (expensive checks: small)
 
 
 def fail(bucket, message, **detail):
